@@ -73,6 +73,10 @@ DEF = {
     "generic_enum": "D%(k)s<T>: !enum {values: [a]}",
     "generic_protocol": "D%(k)s<T>: !protocol {sequence: {s: T}}",
     "reserved_type_name": "int32: float",
+    "field_names_not_distinct": "D%(k)s: !record {fields: {xAB: int, xAb: float}}",
+    "computed_field_not_distinct": "D%(k)s: !record {fields: {x2B: int}, computedFields: {x2b: 1}}",
+    "step_names_not_distinct": "D%(k)s: !protocol {sequence: {sAB: int, sAb: float}}",
+    "enum_symbols_not_distinct": "D%(k)s: !flags {values: [vAB, vAb]}",
 }
 
 LOC_FILE = {"main": ("main", "model.yml"), "main_second_file": ("main", "extra.yml"), "import1": ("imp1", "model.yml"),
